@@ -331,6 +331,42 @@ func runC19Case(c cfg, seed uint64, stopKind string, keys map[string]struct{}) i
 		x.key("invalid-arguments|running")
 		return false
 	})
+	// registrations awaited while the engine keeps running (some of them with a failing epoll_ctl ADD): each
+	// must deliver its single result promptly; a silent channel here has nothing to do with shutdown
+	if life.dialNet != "unix" {
+		addr, _ := net.ResolveTCPAddr(life.dialNet, life.dialAddr)
+		for i := 0; i < 6; i++ {
+			ch, err := life.eng.Register(gnet.NewNetAddrContext(context.Background(), addr))
+			x.evals.Add(1)
+			if err != nil {
+				res.Violate("C19 Register(addr) wrong result state=running", fmt.Sprint(err), nil)
+				continue
+			}
+			select {
+			case rr, ok := <-ch:
+				if !ok || (rr.Conn == nil && rr.Err == nil) {
+					res.Violate("C19 Register(addr) channel closed without a result", "while the engine keeps running", nil)
+				} else if rr.Conn != nil {
+					if _, ok := mon.openedConns.Load(rr.Conn); !ok {
+						res.Violate("C19 Register(addr) delivered a connection whose OnOpen has not run", "while the engine keeps running", map[string]any{"config": c.String()})
+					}
+					_ = rr.Conn.Close()
+				}
+				x.key("Register(addr)|awaited-while-running|" + map[bool]string{true: "conn", false: "error"}[rr.Conn != nil])
+			case <-time.After(5 * time.Second):
+				stuck, desc := loopsStuck()
+				select {
+				case <-ch:
+				default:
+					if stuck {
+						res.Violate("C19 Register(addr) result never delivered while the engine keeps running", "the engine is running and idle ("+desc+"), the registration was accepted 7s ago and its channel is silent", map[string]any{"config": c.String()})
+					} else {
+						res.Inconc("c19: Register result pending for 7s on a running engine (%s)", desc)
+					}
+				}
+			}
+		}
+	}
 	// 2. calls from several goroutines while running, then while Stop is under way, then afterwards
 	stopCalls := make(chan struct{})
 	var wg sync.WaitGroup
